@@ -321,8 +321,11 @@ class LRI(dict):
         with self._lock:
             if self is other:
                 return True
-            if len(other) != len(self):
-                return False
+            try:
+                if len(other) != len(self):
+                    return False
+            except TypeError:
+                return False  # not even sized: not equal, as for dict
             return super().__eq__(other)
 
     def __ne__(self, other):
